@@ -5,6 +5,7 @@ import Driver.LoaderCmd
 import Driver.ParseCmd
 import Driver.RunCmd
 import Driver.ObjCmd
+import Driver.GcCmd
 /-!
 # Line-protocol driver over the executable models
 
@@ -27,6 +28,7 @@ def step (s : DState) (line : String) : DState × String :=
   | ["obj", h, a] => (s, objLine h a)
   | ["ovl", c, a] => (s, ovlLine c a)
   | ["gen", t] => (s, genLine t)
+  | ["heap", o, sc] => (s, heapLine o sc)
   | _ => (s, "bad-op")
 
 partial def loop (h : IO.FS.Stream) (out : IO.FS.Stream) (s : DState) : IO Unit := do
